@@ -86,6 +86,21 @@ class MirrorRun:
                 pref.add(key(b[:i]))
         return [b for b in behs if key(b) not in pref], res, len(behs)
 
+    def conc_cover(self, steps, timeout=1500):
+        """MirrorConcMC: design check of the concurrent-caller driver and state cover export of its behaviours."""
+        copy = {self.world_tla: "MirrorWorld.tla"}
+        design = self.ctx.tlc("MirrorConcMC", "Mirror_conc.cfg", copy=copy, defines={"MaxSteps": steps}, timeout=timeout, allow_violation=True)
+        res = self.ctx.tlc("MirrorConcMC", "Mirror_conccover.cfg", copy=dict(copy), defines={"MaxSteps": steps}, timeout=timeout, workers=8)
+        behs = self.behaviours(res)
+
+        def key(b):
+            return json.dumps([(s["op"], s["args"], s["crashAt"]) for s in b], sort_keys=True)
+        pref = set()
+        for b in behs:
+            for i in range(1, len(b)):
+                pref.add(key(b[:i]))
+        return [b for b in behs if key(b) not in pref], design, res, len(behs)
+
     # ------------------------------------------------------------ replay
     def replay(self, behs, batch=400, timeout_per_batch=900, parallel=8):
         """Replays behaviours on the real Mirror; survives child deaths.  Large sets are split over child processes."""
